@@ -2950,3 +2950,7 @@ mod tests {
         assert_eq!(v, NUM_WORKERS * NUM_INCREMENTS, "lost updates");
     }
 }
+
+#[cfg(kani)]
+#[path = "/verif/harness/anda_object_store/encryption.rs"]
+mod verif_kani;
